@@ -397,6 +397,46 @@ def limit_shapes(draw):
 
 
 @st.composite
+def outer_chain_shapes(draw):
+    """Chains of three or four tables with a RIGHT / FULL join *behind* the first join and a WHERE conjunct (null test or
+    comparison) on one of the earlier tables: whether a filter may go into a table's fetch depends on every later join
+    that can NULL-fill that table, not only on its neighbour."""
+    n = draw(st.integers(3, 4))
+    tabs = [draw(st.sampled_from(ALL_TABLES)) for _ in range(n)]
+    als = [f'x{i + 1}' for i in range(n)]
+    tags = {'shape:outer-chain'}
+    frm = f'{tabs[0][0]}.{tabs[0][1]} AS {als[0]}'
+    late = draw(st.integers(2, n - 1))                 # position of the join that is certainly RIGHT / FULL
+    for i in range(1, n):
+        if i == late:
+            jk = draw(st.sampled_from(['RIGHT JOIN', 'FULL JOIN', 'FULL OUTER JOIN']))
+        else:
+            jk = draw(st.sampled_from(['JOIN', 'LEFT JOIN', 'INNER JOIN', 'RIGHT JOIN', 'FULL JOIN']))
+        tags.add('join:' + jk)
+        li = draw(st.integers(0, i - 1))
+        frm += f' {jk} {tabs[i][0]}.{tabs[i][1]} AS {als[i]} ON ({als[li]}.a = {als[i]}.a)'
+    tcols = []
+    for i in range(n):
+        c = draw(st.sampled_from([c for c, t in model.SCHEMA[tabs[i][1]] if t == 'int']))
+        tcols.append(f'{als[i]}.{c} AS c{i}')
+    conj = []
+    for _ in range(draw(st.integers(1, 2))):
+        wi = draw(st.integers(0, late - 1))
+        wc = draw(st.sampled_from([c for c, t in model.SCHEMA[tabs[wi][1]] if t == 'int']))
+        kind = draw(st.sampled_from(['is-null', 'is-null', 'is-not-null', 'cmp']))
+        if kind == 'cmp':
+            conj.append(f'({als[wi]}.{wc} {draw(st.sampled_from(["=", ">", "<=", "!="]))} {draw(st.integers(0, 2))})')
+        else:
+            conj.append(f'({als[wi]}.{wc} IS {"NOT " if kind == "is-not-null" else ""}NULL)')
+            tags.add('null-test')
+    tags.add('where')
+    sql = f'SELECT {", ".join(tcols)} FROM {frm} WHERE ' + ' AND '.join(conj)
+    meta = {'order_cols': [], 'total_order': False, 'limit': False, 'tags': sorted(tags),
+            'places': sorted({q for q, _ in tabs}), 'tables': sorted({f'{q}.{t}' for q, t in tabs}), 'types': ['int'] * n}
+    return {'sql': sql, 'meta': meta}
+
+
+@st.composite
 def star_over_subselect(draw):
     """`SELECT [DISTINCT] * FROM (<join over two integrations>) AS q [WHERE ...] [LIMIT n]`: the outer query adds only one
     clause to the sub-select's result (the planner decides per clause whether an outer step is needed)."""
@@ -428,6 +468,11 @@ def cases(draw):
     if draw(st.integers(0, 15)) == 0:
         c = draw(star_over_subselect())
         c['data'] = draw(model.table_data(DATA_TABLES))
+        c['catalog'] = draw(st.sampled_from(sorted(CATALOGS)))
+        return c
+    if draw(st.integers(0, 11)) == 0:
+        c = draw(outer_chain_shapes())
+        c['data'] = draw(model.table_data(DATA_TABLES, max_rows=4, min_rows=1))
         c['catalog'] = draw(st.sampled_from(sorted(CATALOGS)))
         return c
     if draw(st.integers(0, 7)) == 0:
